@@ -448,6 +448,10 @@ def c04(repo, res):
     if um is None or "check_static_sensor_orient" not in um.funcs:
         raise AnalysisError("anchor vanished: utility.check_static_sensor_orient")
     n5 += path_quantifier_rule(res, um.funcs["check_static_sensor_orient"], "magpylib/_src/utility.py", "check_static_sensor_orient")
+    # the per-sensor predicate may live in a helper of the same module
+    for c in ast.walk(um.funcs["check_static_sensor_orient"]):
+        if isinstance(c, ast.Call) and isinstance(c.func, ast.Name) and c.func.id in um.funcs and c.func.id != "check_static_sensor_orient":
+            n5 += path_quantifier_rule(res, um.funcs[c.func.id], "magpylib/_src/utility.py", c.func.id)
     if n5 < 2:
         raise AnalysisError(f"F5: only {n5} orientation-path predicates found (unrotated + static expected)")
     return {}
